@@ -149,3 +149,120 @@ func Verif_C08_lzw_total() {
 	// n bytes hold at most 8n/9 codes; the k-th code expands to at most k bytes
 	verifrt.Assert(len(out) <= n*n+1, "output bounded")
 }
+
+// verifNoise is a fixed incompressible-looking buffer (LCG); its prefixes of
+// every length end the encoder in every state of its code counter, so every
+// prefix length is a separate solver-chosen case.
+func verifNoise(n int) []byte {
+	data := make([]byte, n)
+	x := uint32(12345)
+	for i := range data {
+		x = x*1664525 + 1013904223
+		data[i] = byte(x >> 24)
+	}
+	return data
+}
+
+func verifPrefixBound() int {
+	if verifrt.Tier() > 0 {
+		return 6000 // beyond table exhaustion (3838 codes) and the clear code
+	}
+	return 1100 // beyond the 9->10 and 10->11 bit boundaries
+}
+
+// Verif_C06_lzw_every_length: the encoder is closed after every possible
+// number of codes (code width boundaries at Close, table exhaustion).
+func Verif_C06_lzw_every_length() {
+	verifrt.Unwind(40000)
+	max := verifPrefixBound()
+	n := verifrt.Len("n", 0, max)
+	early := verifrt.Choice("early", 2) == 1
+	data := verifNoise(max)[:n]
+	enc := verifEncode(data, n, early)
+	r := NewReader(&verifrt.ChunkReader{Data: enc, EOF: io.EOF}, early)
+	out, err, exhausted := verifrt.ReadAll(r, 4096, n+8)
+	verifrt.Assert(!exhausted && err == io.EOF, "decoder ends with io.EOF")
+	verifrt.Assert(verifrt.Equal(out, data), "decode(encode(x)) == x")
+}
+
+func Verif_C07_lzw_every_length_vs_independent() {
+	verifrt.Unwind(40000)
+	max := verifPrefixBound()
+	n := verifrt.Len("n", 0, max)
+	early := verifrt.Choice("early", 2) == 1
+	data := verifNoise(max)[:n]
+	enc := verifEncode(data, n, early)
+	var ref io.Reader
+	if early {
+		ref = tifflzw.NewReader(&verifrt.ChunkReader{Data: enc, EOF: io.EOF}, tifflzw.MSB, 8)
+	} else {
+		ref = stdlzw.NewReader(&verifrt.ChunkReader{Data: enc, EOF: io.EOF}, stdlzw.MSB, 8)
+	}
+	out, err, exhausted := verifrt.ReadAll(ref, 4096, n+8)
+	verifrt.Assert(!exhausted && err == io.EOF, "independent decoder accepts library output")
+	verifrt.Assert(verifrt.Equal(out, data), "independent decoder reproduces the input")
+}
+
+// verifPack packs codes MSB first with the code width schedule of the
+// format: 9 bits after a clear code, one more bit as soon as the number of
+// table entries (plus EarlyChange) reaches the current capacity, at most 12.
+type verifPacker struct {
+	out   []byte
+	bits  uint32
+	nBits uint
+	width uint
+	hi    int
+	early int
+}
+
+func (p *verifPacker) code(c int) {
+	p.bits |= uint32(c) << (32 - p.width - p.nBits)
+	p.nBits += p.width
+	for p.nBits >= 8 {
+		p.out = append(p.out, byte(p.bits>>24))
+		p.bits <<= 8
+		p.nBits -= 8
+	}
+	if c == clear {
+		p.width, p.hi = 9, eof
+		return
+	}
+	p.hi++
+	if p.hi+p.early >= 1<<p.width && p.width < 12 {
+		p.width++
+	}
+}
+
+// Verif_C08_lzw_total_deep_state: a hostile body whose first k codes (all
+// the literal 'A', no clear code) drive the decoder to a code width boundary
+// or to a full table, followed by arbitrary bytes.
+func Verif_C08_lzw_total_deep_state() {
+	verifrt.Unwind(40000)
+	bases := []int{254, 766, 1790, 3838}
+	if verifrt.Tier() == 0 {
+		bases = []int{254, 3838}
+	}
+	k := bases[verifrt.Choice("base", len(bases))] + verifrt.Choice("delta", 6) - 3
+	early := verifrt.Choice("early", 2)
+	p := &verifPacker{width: 9, hi: eof, early: early}
+	if verifrt.Choice("leadingclear", 2) == 1 {
+		p.code(clear)
+	}
+	for i := 0; i < k; i++ {
+		p.code('A')
+	}
+	// the unused low bits of the last prefix byte are arbitrary as well
+	tail := verifrt.Bytes("tail", 4)
+	body := p.out
+	if p.nBits != 0 {
+		mask := byte(0xff) >> p.nBits
+		body = append(body, byte(p.bits>>24)|tail[0]&mask)
+	}
+	body = append(body, tail[1:]...)
+	r := NewReader(&verifrt.ChunkReader{Data: body, EOF: io.EOF}, early == 1)
+	out, err, exhausted := verifrt.ReadAll(r, 4096, 3*k+64)
+	verifrt.Cover("drained")
+	verifrt.Assert(!exhausted, "decoder terminates with an error or EOF")
+	verifrt.Assert(err != nil, "an end is reported")
+	verifrt.Assert(len(out) >= k-1, "the prefix is decoded")
+}
